@@ -131,6 +131,16 @@ func Yield() { runtime.Gosched() }
 // Quiesce waits until no other thread can move; it reports whether some thread is still blocked.
 func Quiesce() bool { time.Sleep(50 * time.Millisecond); return false }
 
+// QuiesceIdle is Quiesce for situations in which the harness itself keeps a goroutine polling (e.g. Close waiting
+// for a sender the harness has stalled): it returns when nothing but goroutines that sleep-poll can move and each of
+// them has polled again since the last progress of anyone else. (Plain Quiesce reports such a poll loop as a hang.)
+func QuiesceIdle() bool { time.Sleep(50 * time.Millisecond); return false }
+
+// Monitored hands an object the harness allocated over to the race monitor: objects allocated by harness code are
+// exempt by default (probes and mocks are unsynchronised on purpose); a caller-owned value that the repository's
+// API receives and may share between goroutines is not a probe.
+func Monitored(p interface{}) {}
+
 // Cut ends the current path (recorded as a deliberate cut).
 func Cut(label string) { panic(assumeFail{}) }
 
